@@ -209,6 +209,32 @@ func (w *World) verifyFunction(key string, fc *FuncContract, mode Mode) (res *Fu
 		}
 	}
 	f.run("true", st)
+	// every program point named by the contract must exist in the code
+	if fc != nil {
+		pts := map[string]bool{}
+		for _, p := range f.callOrd {
+			pts[p] = true
+		}
+		for _, k := range f.retOrd {
+			pts[fmt.Sprintf("return#%d", k)] = true
+		}
+		chk := func(pt, what string) {
+			pt = strings.TrimPrefix(strings.TrimPrefix(pt, "after "), "before ")
+			if pt == "at exit" || pt == "" || pts[pt] {
+				return
+			}
+			e.fail(f, fmt.Errorf("%s refers to program point %s, which does not exist in the function any more", what, pt))
+		}
+		for _, c := range fc.Asserts {
+			chk(c.Point, "assert")
+		}
+		for _, g := range fc.Ghosts {
+			chk(g.Point, "ghost")
+		}
+		for _, pt := range fc.Binds {
+			chk(pt, "bind")
+		}
+	}
 	// exits
 	_, rs := f.paramNames(fc, fn, fn.Signature, false)
 	for _, r := range f.rets {
